@@ -35,6 +35,7 @@ import tempfile
 import time
 
 LEVEL = "proof"
+EXTRA_PROPS = ["QuantemModel.Props.C05Ext"]   # growth 6: the transient .grad tensors (live loop = .grad-free iteration)
 MANIFEST_ENTRY = {
     "category": "proof",
     "text": "Lean 4 theorems over a protocol-level model of Ptychography checkpointing (Model/Checkpoint.lean + Model/CheckpointSession.lean): an abstract full-batch iteration (loss, gradient-presence, per-parameter optimizer update and scheduler are parameters of every theorem) over a concrete state — per-model parameter lists, torch-style optimizer state keyed by parameter in insertion order, stored optimizer / scheduler configuration, LR bookkeeping of _record_iter, constraints — with save = skip-list projection composed with the C01 serializer model, from_file = C01 load + re-binding by reconnect_optimizer_to_parameters, clone = save/load fallback, and ONE reconstruct(...) CALL modelled branch by branch in source order including every branch that raises part-way (batch_size setter, reset_recon = parameter re-creation + optimizer rebuild with the re-binding on failure, constraints setter, optimizer_params setter + set_optimizers, scheduler_params setter, set_schedulers, _set_targets, the loop). Proved: resume equivalence iter^[n-k](fromFile(save(iter^[k] r))) = iter^[n] r for every split k <= n, every step function and every well-formed state; the same OVER EVERY HISTORY OF CALLS, accepted or rejected at any stage, split after any prefix (resume_eq_history_checkpoint / _clone), from the exception-safety invariant that every call keeps every optimizer bound to the live parameters (call_keeps_invariant, history_keeps_invariant, reset_recon_exception_safe: holds whatever the optimizers were bound to before), with a counterexample for reset_recon before the repair (reset_unrepaired_counterexample: the rejected reset leaves the optimizer on the discarded tensor, the uninterrupted run stops training, the reloaded one does not); the re-binding keeps every parameter's moments for every state (keyed by parameter), whereas the former positional re-keying keeps them iff the state keys are a prefix of the parameter list (counterexample); _record_iter keeps every LR history as long as the iteration count and equals the per-iteration lookup with 0.0 for absent optimizers, for every sequence of iterations/resets with optimizers added or removed. Tied to the code on every run by a run-level differential check on real reconstructions (optimizers sgd/adam/adamw x LRs x schedulers none/plateau/exp/cyclic/linear x object types x 1-2 probe modes x 1-2 slices x zip/dir x every split point; session histories with rejected calls, staged optimisation, autograd on/off and alternative argument forms with every call a split point), by replaying the recorded event trace (optimizer-state key order before/after .to(), LR bookkeeping, which parameters have state) on the Lean model, and by running the call-level model next to the real session and comparing after every call: raised or not, optimizer / scheduler / stored configuration per model, optimizer bound to the live parameters, scheduler attached to the live optimizer, iteration count, LR-history keys and lengths. The source object is continued as well (before or after its clone), clone/reload must share no Parameter/optimizer/scheduler/model object with the source, and checkpoints re-saved with mode='o' over an older checkpoint of the same path must reload as saved.",
@@ -462,6 +463,8 @@ def run_case(ctx, drv, cfg, split, pinned, scratch):
             for X in ((C, B) if order == "clone-first" else (B, C)):
                 cp.run_calls(X, post, pin, log=logs["clone" if X is C else "source"])
             views_R_end = cp.all_opt_views(R)
+            # … and once more after BOTH were continued (optimizers / parameters created by the continuation calls)
+            shared["clone (after both were continued)"] = cp.shared_state(C, B)
     except Exception as e:  # the checkpoint protocol itself raised on a valid configuration
         import traceback
         gap = ""
@@ -494,7 +497,7 @@ def run_case(ctx, drv, cfg, split, pinned, scratch):
     ctx.dist[f"continue_order:{order}"] += 1
     for name, names_shared in shared.items():
         if names_shared:
-            ctx.pred_fail(f"{name}-shares-state", f"the object returned by {name} holds training-state objects of its source (is-identity): "
+            ctx.pred_fail(f"{name.split(' ')[0]}-shares-state", f"the object returned by {name} holds training-state objects of its source (is-identity): "
                           "continuing one changes the other", case, observed=names_shared[:12], required="no shared Parameter / optimizer / scheduler / model object")
     for name, o in (("reload", obs_R0), ("clone", obs_C0)):
         dev = cp.compare(o, obs_B0)
@@ -1006,6 +1009,17 @@ def run(ctx):
                 ctx.dist["cfg:clone-in-memory-block"] += 1
                 for sp in splits_of(cfg):
                     run_case(ctx, drv, cfg, sp, True, scratch)
+        # growth 6: fixed blocks for the size / orientation / two-objects-alive classes (c05_g6.py), every seed, no time guard
+        if only is None or os.environ.get("C05_G6"):
+            from . import c05_g6
+            tg = time.time()
+            for name, cfg, sps in c05_g6.fixed_cases():
+                ctx.dist["cfg:g6:" + name] += 1
+                for sp in sps:
+                    run_case(ctx, drv, cfg, sp, True, scratch)
+            for name, cfg in c05_g6.double_cases():
+                c05_g6.double_case(ctx, cfg, scratch, TOL_PINNED, OBSERVABLES)
+            ctx.extra["g6_fixed_block_seconds"] = round(time.time() - tg, 1)
         for i in range(n_cfg):
             force = FORCED[i] if i < len(FORCED) else None
             cfg = gen_cfg(rng.fork(100 + i), i, force)
@@ -1065,6 +1079,9 @@ def replay(ctx, rep):
     try:
         if "resave" in case:
             resave_case(ctx, case, scratch)
+        elif case.get("double"):
+            from . import c05_g6
+            c05_g6.double_case(ctx, case["cfg"], scratch, TOL_PINNED, OBSERVABLES)
         elif "direct" in case:
             from . import c05_problem as cp0
             reconnect_direct(ctx, drv, cp0)
